@@ -477,9 +477,13 @@ class Client(ClientLike):
             else:
                 msg_list.append(mt)
 
+        # a type that is paused on entry goes back to paused, not to unsubscribed
+        was_paused = [mt for mt in msg_list if mt in self.paused_subscribed_types]
+
         self.subscribe(msg_list)
         yield
-        self.unsubscribe(msg_list)
+        self.unsubscribe([mt for mt in msg_list if mt not in was_paused])
+        self.pause_subscription(was_paused)
 
     @contextmanager
     def paused_subscription_context(self, msg_list: Iterable[int]):
